@@ -17,4 +17,18 @@ REG = {
          "IEEE exactness of power-of-two scaling. The cache fields themselves are not observed (no hook): the algorithm-level "
          "model is bound through Locate's return value only, disagreement there is reported as model drift, not as a violation.",
     technique="TLA+ state machine of the index-search cache (TLC exhaustive) + per-transition replay + trace validation of recorded call histories"),
+ "C19": dict(
+    engine="spec/Helpers.tla, MC_Helpers.tla (+5 cfgs), Trace_Helpers.tla, Rat.tla; harness/c19.cpp",
+    design_ref="DESIGN.md §4.19",
+    text="TLC proves on the specification that the quotient/remainder algorithm of Workload_Distribution refines the property-level "
+         "spec on the complete 128x1024 grid, that the upper_bound search refines 'an index of a nearest element' for every sorted list "
+         "(with duplicates) and target, and checks the laws of the list templates and exact-rational statistics; it exports every case "
+         "with its exact expected result (Range sequences, list results, mean/median/variance/weighted mean as rationals) which a C++ "
+         "replayer pushes through the real functions. Results of Workload_Distribution, Locate_Closest_Location, Range, Linear_Space, "
+         "Log_Space and statistics relations recorded from the real code are validated event by event against Trace_Helpers.",
+    note="Exhaustive parts: (w,t)<=128x1024 in the model, recorded grid 24x96 + 1500 random (quick) / full grid (thorough); Range "
+         "[-12,12]^2 x 1..13 exported (quick), random/full [-40,40]^2 x 1..40 recorded; lists <=5 over {0,1,2}; data sets <=5 over -2..2 and "
+         "one pseudo-random set of length 1..200. Real-valued Linear/Log_Space and statistics laws are accepted through integer-quantised "
+         "residuals computed by the recorder (units of 64 eps x data scale). Trusted: TLC, recorder projection code.",
+    technique="TLA+ specification of each helper (algorithm refines property, TLC exhaustive), replay of exported exact cases, trace validation of recorded results"),
 }
